@@ -238,6 +238,15 @@ func (h *HttpServer) installStickyOnRequestNoCtx(r *http.Request, auth *AuthCont
 	// in cleanup.ReleaseLock. Same-session concurrent calls serialize
 	// here; different-session calls run in parallel.
 	entry.lock.Lock()
+	// The lookup above ran before we queued on the session lock; a call that
+	// held the lock meanwhile may have closed the session (CloseSession,
+	// DELETE, shutdown, expiry). Re-validate now that we own the lock so a
+	// closed session answers session_lost instead of dispatching a handler
+	// on state whose Close has already run.
+	if h.stickyRegistry.get(sid, principalKeyFromAuth(auth)) != entry {
+		entry.lock.Unlock()
+		return cleanup, &SessionLostError{Reason: sessionLostNotFound}
+	}
 	sink.installResumed(entry, sid)
 	cleanup.entry = entry
 	_ = _expiresAt
